@@ -140,6 +140,61 @@ static void run_one(const unsigned char *in, size_t len, int ci, const size_t *c
     htp_urlenp_destroy(p);
 }
 
+/* ---- end to end: the same string as the urlencoded body of a POST through the stream API; the pairs reported in
+ * tx->request_params with source BODY must equal the reference.  In every second run the decoder settings are not those of
+ * the connection's configuration but are installed for the transaction with htp_tx_set_config() from a REQUEST_LINE callback
+ * (the connection configuration then carries different settings): parameters are decoded per the transaction's configuration. */
+static htp_cfg_t *conn_cfg_other;
+static uint64_t n_e2e, n_e2e_txcfg;
+static int cb_install_txcfg(htp_tx_t *tx) {
+    intptr_t ci = (intptr_t) htp_connp_get_user_data(tx->connp);
+    if (ci >= 100) htp_tx_set_config(tx, cfgs[ci - 100], HTP_CONFIG_SHARED);
+    return HTP_OK;
+}
+
+static void run_e2e(const unsigned char *in, size_t len, int ci, const size_t *cuts, int ncuts, const pair *exp, int nexp, int txcfg) {
+    if (len == 0) return;
+    n_eval++; n_e2e++; if (txcfg) n_e2e_txcfg++;
+    htp_connp_t *cp = htp_connp_create(txcfg ? conn_cfg_other : cfgs[ci]);
+    if (cp == NULL) return;
+    htp_connp_set_user_data(cp, (void *) (intptr_t) (txcfg ? 100 + ci : ci));
+    struct timeval tv = { 1, 0 };
+    char head[200];
+    int hl = snprintf(head, sizeof head, "POST /e2e HTTP/1.1\r\nHost: h\r\nContent-Type: application/x-www-form-urlencoded\r\nContent-Length: %zu\r\n\r\n", len);
+    htp_connp_req_data(cp, &tv, head, (size_t) hl);
+    size_t prev = 0;
+    for (int i = 0; i <= ncuts; i++) {
+        size_t e = i < ncuts ? cuts[i] : len;
+        if (e > prev) htp_connp_req_data(cp, &tv, in + prev, e - prev);
+        prev = e;
+    }
+    htp_tx_t *tx = htp_list_get(cp->conn->transactions, 0);
+    char d[400];
+    const char *how = txcfg ? "e2e_txcfg_" : "e2e_";
+    char key[40];
+    if (tx == NULL || tx->request_params == NULL) { snprintf(key, sizeof key, "%sno_params", how); report(key, in, len, ci, cuts, ncuts, "no transaction / parameter table"); htp_connp_destroy_all(cp); return; }
+    int got = 0, bad = 0;
+    for (size_t i = 0, n = htp_table_size(tx->request_params); i < n && !bad; i++) {
+        htp_param_t *pm = htp_table_get_index(tx->request_params, i, NULL);
+        if (pm == NULL || pm->source != HTP_SOURCE_BODY) continue;
+        if (got < nexp) {
+            if (bstr_len(pm->name) != exp[got].name.n || memcmp(bstr_ptr(pm->name), exp[got].name.b, exp[got].name.n) != 0) {
+                snprintf(d, sizeof d, "body parameter %d: name has %zu bytes, reference %zu bytes%s", got, bstr_len(pm->name), exp[got].name.n, txcfg ? " (settings installed with htp_tx_set_config)" : "");
+                snprintf(key, sizeof key, "%sname", how); report(key, in, len, ci, cuts, ncuts, d); bad = 1;
+            } else if (bstr_len(pm->value) != exp[got].value.n || memcmp(bstr_ptr(pm->value), exp[got].value.b, exp[got].value.n) != 0) {
+                snprintf(d, sizeof d, "body parameter %d: value has %zu bytes, reference %zu bytes%s", got, bstr_len(pm->value), exp[got].value.n, txcfg ? " (settings installed with htp_tx_set_config)" : "");
+                snprintf(key, sizeof key, "%svalue", how); report(key, in, len, ci, cuts, ncuts, d); bad = 1;
+            }
+        }
+        got++;
+    }
+    if (!bad && got != nexp) {
+        snprintf(d, sizeof d, "%d body parameters reported, reference gives %d", got, nexp);
+        snprintf(key, sizeof key, "%spair_count", how); report(key, in, len, ci, cuts, ncuts, d);
+    }
+    htp_connp_destroy_all(cp);
+}
+
 static void check_string(const unsigned char *in, size_t len, uint64_t *rs, int random_cuts) {
     n_strings++;
     pair exp[MAXP];
@@ -147,6 +202,10 @@ static void check_string(const unsigned char *in, size_t len, uint64_t *rs, int 
         int nexp = model_params(in, len, &dcfgs[ci], exp);
         n_pairs += (uint64_t) nexp;
         run_one(in, len, ci, NULL, 0, exp, nexp);
+        if (len <= 4 || (random_cuts && (n_strings & 15) == 0)) {
+            run_e2e(in, len, ci, NULL, 0, exp, nexp, (int) ((n_strings + (uint64_t) ci) & 1));
+            for (size_t c = 1; c < len && len <= 4; c++) run_e2e(in, len, ci, &c, 1, exp, nexp, (int) ((n_strings + (uint64_t) ci + c) & 1));
+        }
         if (!random_cuts) {
             for (size_t c = 1; c < len; c++) { n_cuts++; run_one(in, len, ci, &c, 1, exp, nexp); }
         } else {
@@ -184,12 +243,25 @@ int main(int argc, char **argv) {
         htp_config_set_nul_encoded_terminates(c, HTP_DECODER_URLENCODED, ne);
         htp_config_set_nul_raw_terminates(c, HTP_DECODER_URLENCODED, nr);
         htp_config_set_u_encoding_decode(c, HTP_DECODER_URLENCODED, 0);
+        htp_config_register_urlencoded_parser(c);
+        htp_config_set_log_level(c, HTP_LOG_NONE);
         cfgs[ci] = c;
         dcfgs[ci].invalid = inv; dcfgs[ci].plus = plus; dcfgs[ci].nul_enc_term = ne; dcfgs[ci].nul_raw_term = nr;
         connps[ci] = htp_connp_create(c);
         txs[ci] = htp_connp_tx_create(connps[ci]);
         ci++;
     }
+    /* the connection-level configuration of the htp_tx_set_config() runs: settings unlike any sensible default, so that a
+     * decoder that looked at the connection's configuration would disagree with the reference in most configurations */
+    conn_cfg_other = htp_config_create();
+    htp_config_set_url_encoding_invalid_handling(conn_cfg_other, HTP_DECODER_URLENCODED, HTP_URL_DECODE_REMOVE_PERCENT);
+    htp_config_set_plusspace_decode(conn_cfg_other, HTP_DECODER_URLENCODED, 0);
+    htp_config_set_nul_encoded_terminates(conn_cfg_other, HTP_DECODER_URLENCODED, 1);
+    htp_config_set_nul_raw_terminates(conn_cfg_other, HTP_DECODER_URLENCODED, 0);
+    htp_config_set_u_encoding_decode(conn_cfg_other, HTP_DECODER_URLENCODED, 0);
+    htp_config_register_urlencoded_parser(conn_cfg_other);
+    htp_config_set_log_level(conn_cfg_other, HTP_LOG_NONE);
+    htp_config_register_request_line(conn_cfg_other, cb_install_txcfg);
     unsigned char buf[256];
     uint64_t s = seed * 0x9e3779b97f4a7c15ULL + shard;
     hx_buf samples = { 0 };
@@ -217,10 +289,11 @@ int main(int argc, char **argv) {
         check_string(buf, l, &s, 1);
     }
     printf("S {\"evaluations\":%llu,\"strings\":%llu,\"exhaustive_strings\":%llu,\"random_strings\":%llu,\"cut_runs\":%llu,\"configurations\":24,\"reference_pairs\":%llu,"
-           "\"invalid_encodings_in_reference\":%llu,\"nul_bytes_in_reference\":%llu,\"violations\":%llu,\"samples\":[%s]}\n",
+           "\"invalid_encodings_in_reference\":%llu,\"nul_bytes_in_reference\":%llu,\"violations\":%llu,\"end_to_end_runs\":%llu,\"end_to_end_runs_with_tx_config\":%llu,\"samples\":[%s]}\n",
            (unsigned long long) n_eval, (unsigned long long) n_strings, (unsigned long long) exhaustive_strings, (unsigned long long) nrandom, (unsigned long long) n_cuts,
-           (unsigned long long) n_pairs, (unsigned long long) n_invalid_enc, (unsigned long long) n_nul, (unsigned long long) n_viol, samples.p ? samples.p : "");
+           (unsigned long long) n_pairs, (unsigned long long) n_invalid_enc, (unsigned long long) n_nul, (unsigned long long) n_viol, (unsigned long long) n_e2e, (unsigned long long) n_e2e_txcfg, samples.p ? samples.p : "");
     for (int k = 0; k < 24; k++) { htp_connp_destroy_all(connps[k]); htp_config_destroy(cfgs[k]); }
+    htp_config_destroy(conn_cfg_other);
     hb_free(&samples);
     fflush(stdout);
     return 0;
